@@ -46,6 +46,8 @@ pub enum Val {
     Unit,
     Bool(bool),
     Int(IK, i128),
+    /// (is float32, value): float32 values are kept rounded to single precision
+    Float(bool, f64),
     Str(Arc<String>),
     Tuple(Arc<Vec<Val>>),
     Array(Arc<Vec<Val>>),
@@ -194,6 +196,7 @@ impl<'a> Interp<'a> {
             (Val::Unit, Val::Unit) => true,
             (Val::Bool(x), Val::Bool(y)) => x == y,
             (Val::Int(_, x), Val::Int(_, y)) => x == y,
+            (Val::Float(_, x), Val::Float(_, y)) => x == y,
             (Val::Str(x), Val::Str(y)) => x.as_str() == y.as_str(),
             (Val::Ref(x), Val::Ref(y)) => Arc::ptr_eq(x, y),
             (Val::Tuple(x), Val::Tuple(y)) | (Val::Array(x), Val::Array(y)) => {
@@ -389,6 +392,7 @@ impl<'a> Interp<'a> {
             Expr::Unit => Ok(Val::Unit),
             Expr::Bool(b) => Ok(Val::Bool(*b)),
             Expr::Int(k, v, _) => Ok(Val::Int(*k, *v)),
+            Expr::Float(f, v) => Ok(Val::Float(*f, if *f { *v as f32 as f64 } else { *v })),
             Expr::Str(s) => Ok(Val::Str(Arc::new(s.clone()))),
             Expr::Var(v) => lookup(env, *v).ok_or_else(|| Stop::Unspecified(format!("model: unbound v{v}"))),
             Expr::FnRef(f) => Ok(Val::Fn(*f)),
@@ -396,6 +400,7 @@ impl<'a> Interp<'a> {
                 let v = self.eval(a, env)?;
                 match (op, v) {
                     (UnOp::Neg, Val::Int(k, x)) => Ok(Val::Int(k, k.wrap(-x))),
+                    (UnOp::Neg, Val::Float(f, x)) => Ok(Val::Float(f, -x)),
                     (UnOp::Not, Val::Bool(b)) => Ok(Val::Bool(!b)),
                     _ => Err(Stop::Unspecified("model: bad unary operand".into())),
                 }
@@ -431,6 +436,27 @@ impl<'a> Interp<'a> {
                             };
                             Ok(Val::Int(*k, k.wrap(v)))
                         }
+                        (Val::Float(f, x), Val::Float(_, y)) if *op != BinOp::Div => {
+                            // IEEE arithmetic at the operands' width, rounded after every operation
+                            let v = if *f {
+                                let (a, b) = (*x as f32, *y as f32);
+                                (match op {
+                                    BinOp::Add => a + b,
+                                    BinOp::Sub => a - b,
+                                    _ => a * b,
+                                }) as f64
+                            } else {
+                                match op {
+                                    BinOp::Add => x + y,
+                                    BinOp::Sub => x - y,
+                                    _ => x * y,
+                                }
+                            };
+                            if !v.is_finite() {
+                                return Err(Stop::Unspecified("float overflow".into()));
+                            }
+                            Ok(Val::Float(*f, v))
+                        }
                         (Val::Str(x), Val::Str(y)) if *op == BinOp::Add => {
                             let mut s = String::with_capacity(x.len() + y.len());
                             s.push_str(x);
@@ -444,6 +470,10 @@ impl<'a> Interp<'a> {
                     _ => {
                         let ord = match (&l, &r) {
                             (Val::Int(_, x), Val::Int(_, y)) => x.cmp(y),
+                            (Val::Float(_, x), Val::Float(_, y)) => match x.partial_cmp(y) {
+                                Some(o) => o,
+                                None => return Err(Stop::Unspecified("NaN comparison".into())),
+                            },
                             (Val::Str(x), Val::Str(y)) => x.as_bytes().cmp(y.as_bytes()),
                             _ => return Err(Stop::Unspecified("model: bad comparison operands".into())),
                         };
